@@ -400,7 +400,7 @@ Theorem C04_norm_is_definite :
 Proof. intros a t e x y z HD Hg. split; [exact (N_nonneg a t e x y z HD Hg) | exact (N_zero a t e x y z HD Hg)]. Qed.
 Print Assumptions C04_norm_is_definite.
 
-(** ... on the underdamped domain (0 < e <= 1/10, e <= a <= t, a t <= 1/50): DG >= 13/20 a t and rho <= 1 - 4e/5 *)
+(** ... on the underdamped domain (0 < e <= 1/10, e <= a <= t, a t <= 1): DG >= 13/20 a t and rho <= 1 - 4e/5 *)
 Theorem C04_contraction_factor_on_domain :
   forall a t e : R, dom_ud a t e ->
     (13 / 20 * (a * t) <= DG (K:=RF) a t e /\ 0 < DG (K:=RF) a t e) /\ 0 < rho (K:=RF) a t e <= 1 - 4 / 5 * e.
